@@ -228,10 +228,17 @@ TrSyntax ==
                    [] P.err = "" /\ known -> Ev.ok = ReOK(<<>>, P.atoms)
                    [] OTHER -> TRUE, <<"CheckSyntax", Ev.pat, Ev.ok, P.err>>)
 
+\* C18: the bundled Trace helper replies 200, Content-Type message/http actually SENT, body = escaped dump
+TrTraceHelper ==
+  /\ Ev.ev = "tracehelper" /\ UNCHANGED <<rt, prevRt, lastEv>>
+  /\ Check("C05", Ev.res = "ok", <<"Trace helper panicked">>)
+  /\ Check("C18", (Ev.res = "ok" /\ Ev.dumpok) => (Ev.status = 200 /\ Ev.ct = "message/http" /\ Ev.out = HtmlEscape(Ev.dump)),
+           <<"trace helper", Ev.status, Ev.ct, Ev.out, Ev.dump>>)
+
 TraceNext ==
   /\ l <= Len(Trace)
   /\ l' = l + 1
-  /\ (TrReset \/ TrHandle \/ TrRemove \/ TrClean \/ TrUse \/ TrRoutes \/ TrServe \/ TrURL \/ TrSyntax)
+  /\ (TrReset \/ TrHandle \/ TrRemove \/ TrClean \/ TrUse \/ TrRoutes \/ TrServe \/ TrURL \/ TrSyntax \/ TrTraceHelper)
   /\ (l' > Len(Trace) => PrintT("TRACE-END " \o ToString(Len(Trace))))
 
 Spec == Init /\ [][TraceNext]_vars
